@@ -112,6 +112,12 @@ theorem consume_spec (v : RV) (d : Bytes) :
       simp [this]
 
 
+theorem popFail_root (w : Walker) : w.popFail.root = w.root := by
+  unfold Walker.popFail; split <;> rfl
+
+theorem popFail_stack (w : Walker) : w.popFail.stack = w.stack := by
+  unfold Walker.popFail; split <;> rfl
+
 /-! ### Walker.Iterate with the read visitor -/
 
 /-- outcome of a run of `Iterate` started at `(w, v)` with `R` still to be read -/
@@ -157,6 +163,10 @@ theorem iterate_ok : ∀ (fuel : Nat) (mode : Bool) (w : Walker) (v : RV), v.cur
         have hfc : w.fetchChild = some w.root := by simp [Walker.fetchChild, hst]
         rw [hfc]
         simp only
+        have hff : w.fetchFails = false := by simp [Walker.fetchFails, hst]
+        have hpf : w.popFail = w := by simp [Walker.popFail, hst]
+        rw [hff, hpf]
+        simp only [Bool.false_eq_true, if_false]
         have hW' : 4 * nodes w.root + 1 < f + 1 := by simpa [downW, hst] using hW
         have hR : remDown w = content w.root := by simp [remDown, hst]
         rw [hR]
@@ -251,55 +261,63 @@ theorem iterate_ok : ∀ (fuel : Nat) (mode : Bool) (w : Walker) (v : RV), v.cur
             simpa [downW, hst, hdrop, nodesL_cons, hilt] using hW
           have hR : remDown w = content c ++ (contentL ((children n).drop (i + 1)) ++ remRest r) := by
             simp [remDown, hst, hdrop, List.append_assoc]
-          have hfo : framesOk (w.extend c).stack := by
-            simp only [Walker.extend, hst]
+          have hst1 : w.popFail.stack = (n, i) :: r := by rw [popFail_stack, hst]
+          have hfo : framesOk (w.popFail.extend c).stack := by
+            simp only [Walker.extend, hst1]
             exact framesOk_cons.mpr ⟨Nat.zero_le _, framesOk_cons.mpr ⟨hfr.1, hfr.2⟩⟩
           rw [hR]
+          by_cases hff : w.fetchFails = true
+          · -- FetchChild failed: `down` returns the error, the walker has not moved
+            rw [if_pos hff]
+            refine ⟨by simp, by rw [popFail_stack, hst]; exact framesOk_cons.mpr hfr, popFail_root w, [], Trans.refl v, ?_,
+              (fun h => by cases h), (fun h => by cases h)⟩
+            simp only [hcur, Option.getD_none, List.nil_append, remDown, hst1, hdrop, contentL_cons, List.append_assoc]
+          rw [if_neg hff]
           by_cases hint : childTotal c > 0
           · have hv : readVisit v c = (v, false) := by simp [readVisit, hint]
             rw [hv]
             simp only [Bool.false_eq_true, if_false]
-            have := ih true (w.extend c) v hcur hfo
+            have := ih true (w.popFail.extend c) v hcur hfo
               (by
                 intro _
-                simp only [downW, Walker.extend, hst, restW, List.drop_zero, hint, if_true]
+                simp only [downW, Walker.extend, hst1, restW, List.drop_zero, hint, if_true]
                 have := nodes_eq c; omega)
               (by intro h; cases h)
             simp only [if_true] at this
-            have hrem : remDown (w.extend c) = content c ++ (contentL ((children n).drop (i + 1)) ++ remRest r) := by
-              simp [remDown, Walker.extend, hst, remRest, content_of_children _ hint]
+            have hrem : remDown (w.popFail.extend c) = content c ++ (contentL ((children n).drop (i + 1)) ++ remRest r) := by
+              simp [remDown, Walker.extend, hst1, remRest, content_of_children _ hint]
             rw [hrem] at this
-            have := IterOk.prepend (w := w) (Trans.refl v) (fun h => h) (by simp [Walker.extend]) this
+            have := IterOk.prepend (w := w) (Trans.refl v) (fun h => h) (by simp [Walker.extend, popFail_root]) this
             rw [List.nil_append] at this
             exact this
           · have hv : readVisit v c = (consume v (leafData c), (consume v (leafData c)).need == some 0) := by
               simp [readVisit, hint]
             rw [hv]
             obtain ⟨X, hT, hX, hc⟩ := consume_spec v (leafData c)
-            have hrem : remDown (w.extend c) = contentL ((children n).drop (i + 1)) ++ remRest r := by
+            have hrem : remDown (w.popFail.extend c) = contentL ((children n).drop (i + 1)) ++ remRest r := by
               have : children c = [] := by
                 cases hc' : children c with
                 | nil => rfl
                 | cons _ _ => simp [childTotal, hc'] at hint
-              simp [remDown, Walker.extend, hst, remRest, this]
+              simp [remDown, Walker.extend, hst1, remRest, this]
             by_cases hp : (consume v (leafData c)).need = some 0
             · simp only [hp, beq_self_eq_true, if_true]
-              refine ⟨by simp, hfo, by simp [Walker.extend], X, hT, ?_, (fun _ => hp), (fun h => by cases h)⟩
+              refine ⟨by simp, hfo, by simp [Walker.extend, popFail_root], X, hT, ?_, (fun _ => hp), (fun h => by cases h)⟩
               simp only [hrem]
               rw [← List.append_assoc, hX, content_of_leaf _ hint, List.append_assoc]
             · have hp' : ((consume v (leafData c)).need == some 0) = false := by simpa using hp
               simp only [hp', Bool.false_eq_true, if_false]
               have hcn := hc hp
-              have := ih true (w.extend c) (consume v (leafData c)) hcn hfo
+              have := ih true (w.popFail.extend c) (consume v (leafData c)) hcn hfo
                 (by
                   intro _
-                  simp only [downW, Walker.extend, hst, restW, List.drop_zero, nodesL_of_leaf _ hint]
+                  simp only [downW, Walker.extend, hst1, restW, List.drop_zero, nodesL_of_leaf _ hint]
                   have := nodes_eq c
                   have := nodesL_of_leaf _ hint
                   split <;> omega)
                 (by intro h; cases h)
               simp only [if_true, hrem] at this
-              have := IterOk.prepend (w := w) hT (fun _ => hp) (by simp [Walker.extend]) this
+              have := IterOk.prepend (w := w) hT (fun _ => hp) (by simp [Walker.extend, popFail_root]) this
               rw [hcn] at hX
               simp only [Option.getD_none, List.append_nil] at hX
               rw [content_of_leaf _ hint]
@@ -450,13 +468,14 @@ theorem skip_spec (t : FNode) (below : List (FNode × Nat)) : ∀ (rest pre : Li
         rw [drop_skip c sz rest' left hszc (by omega), hre]
         simp
 
-/-- outcome of `Walker.Seek` after stepping down into `t` with `left` bytes to skip -/
+/-- outcome of `Walker.Seek` after stepping down into `t` with `left` bytes to skip: either some fetch failed, or
+the walk is complete and what is left to read is `content t` from `left` on (then the rest of the file) -/
 theorem seek_spec : ∀ (fuel : Nat) (t : FNode) (w : Walker) (left : Nat), wellSized t = true → height t < fuel →
     framesOk w.stack →
     let r := seekVisit (w.extend t) (left, none)
     let x := wseek seekVisit fuel r.1 r.2
-    x.2.2 = false ∧ x.1.root = w.root ∧ framesOk x.1.stack ∧
-      (x.2.1.2.getD []) ++ remDown x.1 = (content t).drop left ++ remRest w.stack := by
+    x.2.2 = .fetchErr ∨ (x.2.2 = .done ∧ x.1.root = w.root ∧ framesOk x.1.stack ∧
+      (x.2.1.2.getD []) ++ remDown x.1 = (content t).drop left ++ remRest w.stack) := by
   intro fuel
   induction fuel with
   | zero => intro t w left _ h; omega
@@ -481,26 +500,30 @@ theorem seek_spec : ∀ (fuel : Nat) (t : FNode) (w : Walker) (left : Nat), well
           rw [hst]
           refine framesOk_cons.mpr ⟨?_, hok⟩
           simp [childTotal, hch]
-        have := ih c (skipLoop (children t) (w.extend t) left).1 (skipLoop (children t) (w.extend t) left).2
-          hwc (by omega) hfo
-        simp only at this
         simp only [wseek, hfc]
-        obtain ⟨a, b, c', d⟩ := this
-        refine ⟨a, by rw [b, hroot]; rfl, c', ?_⟩
-        rw [d, hst]
-        simp only [remRest]
-        have hd2 : (children t).drop (pre2.length + 1) = rest2 := by
-          rw [hch]; simp
-        have hle : (skipLoop (children t) (w.extend t) left).2 ≤ (content (c, sz).1).length := by
-          show _ ≤ (content c).length
-          omega
-        rw [hd2, content_of_children t hint, hdrop, contentL_cons, List.drop_append_of_le_length hle,
-          List.append_assoc]
+        by_cases hff : (skipLoop (children t) (w.extend t) left).1.fetchFails = true
+        · rw [if_pos hff]; exact Or.inl rfl
+        · rw [if_neg hff]
+          have := ih c (skipLoop (children t) (w.extend t) left).1.popFail (skipLoop (children t) (w.extend t) left).2
+            hwc (by omega) (by rw [popFail_stack]; exact hfo)
+          simp only at this
+          rcases this with h | ⟨a, b, c', d⟩
+          · exact Or.inl h
+          · refine Or.inr ⟨a, by rw [b, popFail_root, hroot]; rfl, c', ?_⟩
+            rw [d, popFail_stack, hst]
+            simp only [remRest]
+            have hd2 : (children t).drop (pre2.length + 1) = rest2 := by
+              rw [hch]; simp
+            have hle : (skipLoop (children t) (w.extend t) left).2 ≤ (content (c, sz).1).length := by
+              show _ ≤ (content c).length
+              omega
+            rw [hd2, content_of_children t hint, hdrop, contentL_cons, List.drop_append_of_le_length hle,
+              List.append_assoc]
       · -- past the last child: the Seek stops here
         have hfc : (skipLoop (children t) (w.extend t) left).1.fetchChild = none := by
           simp [Walker.fetchChild, hst, childTotal]
         simp only [wseek, hfc]
-        refine ⟨trivial, by rw [hroot]; rfl, ?_, ?_⟩
+        refine Or.inr ⟨trivial, by rw [hroot]; rfl, ?_, ?_⟩
         · rw [hst]; exact framesOk_cons.mpr ⟨Nat.le_refl _, hok⟩
         · simp only [Option.getD_none, List.nil_append, remDown, hst]
           rw [content_of_children t hint, hdrop]
@@ -515,10 +538,83 @@ theorem seek_spec : ∀ (fuel : Nat) (t : FNode) (w : Walker) (left : Nat), well
       simp only [hsv]
       have hfc : (w.extend t).fetchChild = none := by simp [Walker.fetchChild, Walker.extend, hch]
       simp only [wseek, hfc]
-      refine ⟨trivial, rfl, ?_, ?_⟩
+      refine Or.inr ⟨trivial, rfl, ?_, ?_⟩
       · simp only [Walker.extend]; exact framesOk_cons.mpr ⟨Nat.zero_le _, hok⟩
       · simp [remDown, Walker.extend, hch, content_of_leaf t hint]
 
+/-! ### without fetch failures nothing fails -/
+
+theorem nextChild_fails (w : Walker) : w.nextChild.1.fails = w.fails := by
+  unfold Walker.nextChild; split <;> rfl
+
+theorem up_fails (w w' : Walker) (h : w.up = some w') : w'.fails = w.fails := by
+  unfold Walker.up at h; split at h <;> cases h; rfl
+
+theorem iterate_nofail {V : Type} (visit : V → FNode → V × Bool) : ∀ (fuel : Nat) (mode : Bool) (w : Walker) (v : V),
+    w.fails = [] → (iterate visit fuel mode w v).2.2 ≠ .fetchErr ∧ (iterate visit fuel mode w v).1.fails = [] := by
+  intro fuel
+  induction fuel with
+  | zero => intro mode w v hf; exact ⟨by simp [iterate], by simpa [iterate] using hf⟩
+  | succ f ih =>
+    intro mode w v hf
+    have hff : w.fetchFails = false := by simp [Walker.fetchFails, hf]
+    have hpf : w.popFail.fails = [] := by unfold Walker.popFail; split <;> simp [hf]
+    cases mode with
+    | true =>
+      simp only [iterate]
+      cases w.fetchChild with
+      | none => exact ih false w v hf
+      | some c =>
+        simp only [hff, Bool.false_eq_true, if_false]
+        split
+        · exact ⟨by simp, by simpa [Walker.extend] using hpf⟩
+        · exact ih true _ _ (by simpa [Walker.extend] using hpf)
+    | false =>
+      simp only [iterate]
+      have hn := nextChild_fails w
+      split
+      · exact ih true _ _ (by rw [hn, hf])
+      · cases hu : w.nextChild.1.up with
+        | none => exact ⟨by simp, by simp only; rw [hn, hf]⟩
+        | some w' => exact ih false _ _ (by rw [up_fails _ _ hu, hn, hf])
+
+theorem skipLoop_fails : ∀ (cs : List (FNode × Nat)) (w : Walker) (left : Nat), (skipLoop cs w left).1.fails = w.fails := by
+  intro cs
+  induction cs with
+  | nil => intro w left; rfl
+  | cons x rest ih =>
+    intro w left
+    obtain ⟨c, sz⟩ := x
+    simp only [skipLoop]
+    split
+    · rfl
+    · split
+      · rw [ih, nextChild_fails]
+      · exact nextChild_fails w
+
+theorem seekVisit_fails (w : Walker) (v : Nat × Option Bytes) : (seekVisit w v).1.fails = w.fails := by
+  unfold seekVisit
+  split
+  · split
+    · exact skipLoop_fails _ _ _
+    · rfl
+  · rfl
+
+theorem wseek_nofail : ∀ (fuel : Nat) (w : Walker) (v : Nat × Option Bytes), w.fails = [] →
+    (wseek seekVisit fuel w v).2.2 ≠ .fetchErr ∧ (wseek seekVisit fuel w v).1.fails = [] := by
+  intro fuel
+  induction fuel with
+  | zero => intro w v hf; exact ⟨by simp [wseek], by simpa [wseek] using hf⟩
+  | succ f ih =>
+    intro w v hf
+    have hff : w.fetchFails = false := by simp [Walker.fetchFails, hf]
+    have hpf : w.popFail.fails = [] := by unfold Walker.popFail; split <;> simp [hf]
+    simp only [wseek]
+    cases w.fetchChild with
+    | none => exact ⟨by simp, hf⟩
+    | some c =>
+      simp only [hff, Bool.false_eq_true, if_false]
+      exact ih _ _ (by rw [seekVisit_fails]; simpa [Walker.extend] using hpf)
 
 /-! ### the reader refines the byte-slice reader -/
 
@@ -536,12 +632,15 @@ theorem inv_new (root : FNode) : Inv root (newReader root) 0 := by
 /-- everything `readGen` does, in terms of the bytes `R` that are left -/
 theorem readGen_spec (root : FNode) (r : Reader) (pos : Nat) (need : Option Nat) (h : Inv root r pos) :
     ∃ B, (r.readGen need).2.1 = B ∧ Inv root (r.readGen need).1 (pos + B.length) ∧
-      (match need with
-       | some k => B = ((content root).drop pos).take k ∧
+      (((r.readGen need).2.2 = .err ∧ B = ((content root).drop pos).take B.length ∧
+          (∀ k, need = some k → B.length ≤ k)) ∨
+       (match need with
+        | some k => B = ((content root).drop pos).take k ∧
           ((r.readGen need).2.2 = .nil ∨ (r.readGen need).2.2 = .eof) ∧
           ((r.readGen need).2.2 = .eof → B = (content root).drop pos ∧ (0 < k → B.length < k)) ∧
           ((r.readGen need).2.2 = .nil → 0 < k → B.length = k)
-       | none => B = (content root).drop pos ∧ (r.readGen need).2.2 = .nil) := by
+        | none => B = (content root).drop pos ∧ (r.readGen need).2.2 = .nil)) ∧
+      (r.w.fails = [] → (r.readGen need).2.2 ≠ .err ∧ (r.readGen need).1.w.fails = []) := by
   obtain ⟨hroot, hsize, hfo, hoff, hrem⟩ := h
   -- the buffered part
   have hv1 : ∃ X0 v1, r.drainCur need = v1 ∧
@@ -565,7 +664,7 @@ theorem readGen_spec (root : FNode) (r : Reader) (pos : Nat) (need : Option Nat)
     have hlen : v1.outRev.length = X0.length := by rw [← hB]; simp
     have hsplit := prefix_eq_take (X := X0) (Y := v1.cur.getD [] ++ remDown r.w)
       (R := (content root).drop pos) (by rw [← hrem, ← hX0, List.append_assoc])
-    refine ⟨X0, hB, ⟨hroot, hsize, hfo, by simp [hoff, hlen], ?_⟩, ?_⟩
+    refine ⟨X0, hB, ⟨hroot, hsize, hfo, by simp [hoff, hlen], ?_⟩, Or.inr ?_, fun hf => ⟨by simp, hf⟩⟩
     · show v1.cur.getD [] ++ remDown r.w = _
       rw [hsplit.2, List.drop_drop]
     · cases hn : need with
@@ -597,12 +696,16 @@ theorem readGen_spec (root : FNode) (r : Reader) (pos : Nat) (need : Option Nat)
       (Y := (iterate readVisit (downW r.w + 1) true r.w v1).2.1.cur.getD [] ++
         remDown (iterate readVisit (downW r.w + 1) true r.w v1).1)
       (R := (content root).drop pos) (by rw [← hrem, ← hR, hX0']; simp [List.append_assoc])
-    refine ⟨X0 ++ X, houtA, ⟨by simp [hroot', hroot], hsize, hfo', by simp [hoff, houtA], ?_⟩, ?_⟩
+    refine ⟨X0 ++ X, houtA, ⟨by simp [hroot', hroot], hsize, hfo', by simp [hoff, houtA], ?_⟩, ?_, ?_⟩
     · show _ ++ remDown _ = _
       rw [hsplit.2, List.drop_drop]
     · cases hres : (iterate readVisit (downW r.w + 1) true r.w v1).2.2 with
       | outOfFuel => exact absurd hres hfuel
+      | fetchErr =>
+        refine Or.inl ⟨rfl, hsplit.1, fun k hn => ?_⟩
+        rw [hn] at hneedA; exact hneedA.1
       | paused =>
+        refine Or.inr ?_
         have hn0 := hp hres
         cases hn : need with
         | none => rw [hn] at hneedA; simp only at hneedA; rw [hneedA] at hn0; cases hn0
@@ -616,6 +719,7 @@ theorem readGen_spec (root : FNode) (r : Reader) (pos : Nat) (need : Option Nat)
           simp only
           refine ⟨by rw [← hxk]; exact hsplit.1, by simp, (fun h => by cases h), fun _ _ => hxk⟩
       | endOfDag =>
+        refine Or.inr ?_
         obtain ⟨hc', hr', hnz⟩ := he hres
         have hall : X0 ++ X = (content root).drop pos := by
           rw [← hrem, ← hR, hX0', hc', hr']; simp
@@ -642,62 +746,116 @@ theorem readGen_spec (root : FNode) (r : Reader) (pos : Nat) (need : Option Nat)
             by_cases hlt : (X0 ++ X).length < k
             · exact hlt
             · exact absurd (by congr 1; omega) this
+    · intro hf
+      obtain ⟨hne, hfl⟩ := iterate_nofail readVisit (downW r.w + 1) true r.w v1 hf
+      refine ⟨?_, hfl⟩
+      cases hres : (iterate readVisit (downW r.w + 1) true r.w v1).2.2 with
+      | outOfFuel => exact absurd hres hfuel
+      | fetchErr => exact absurd hres hne
+      | paused => simp
+      | endOfDag => cases need <;> simp
 
+theorem seekTo_bytes (s : Spec) (t : Int) : (Spec.seekTo s t).2.bytes = [] := by
+  unfold Spec.seekTo; split <;> rfl
 
+theorem out_eq (a : Int × Err) (so : Out) (hb : so.bytes = []) (h : a = (so.off, so.err)) :
+    ({ bytes := [], off := a.1, err := a.2 } : Out) = so := by
+  cases so; cases a; simp_all
+
+/-- `Seek(t, SeekStart)`: as the byte-slice reader, or — only when a fetch failed — error and back at the start -/
 theorem seekStart_spec (root : FNode) (hws : wellSized root = true) (r : Reader) (pos : Nat)
     (h : Inv root r pos) (t : Int) :
-    (r.seekStart t).2 = ((Spec.seekTo ⟨content root, pos⟩ t).2.off, (Spec.seekTo ⟨content root, pos⟩ t).2.err) ∧
-    Inv root (r.seekStart t).1 (Spec.seekTo ⟨content root, pos⟩ t).1.pos := by
+    ((((r.seekStart t).2 = ((Spec.seekTo ⟨content root, pos⟩ t).2.off, (Spec.seekTo ⟨content root, pos⟩ t).2.err) ∧
+        Inv root (r.seekStart t).1 (Spec.seekTo ⟨content root, pos⟩ t).1.pos)) ∨
+     ((r.seekStart t).2 = (0, .err) ∧ Inv root (r.seekStart t).1 0)) ∧
+    (r.w.fails = [] →
+      ((r.seekStart t).2 = ((Spec.seekTo ⟨content root, pos⟩ t).2.off, (Spec.seekTo ⟨content root, pos⟩ t).2.err) ∧
+        Inv root (r.seekStart t).1 (Spec.seekTo ⟨content root, pos⟩ t).1.pos) ∧ (r.seekStart t).1.w.fails = []) := by
   obtain ⟨hroot, hsize, hfo, hoff, hrem⟩ := h
   simp only [Reader.seekStart, Spec.seekTo]
   by_cases hneg : t < 0
   · simp only [hneg, if_true, hoff]
-    exact ⟨trivial, hroot, hsize, hfo, hoff, hrem⟩
+    have hA : True ∧ Inv root r pos := ⟨trivial, hroot, hsize, hfo, hoff, hrem⟩
+    exact ⟨Or.inl hA, fun hf => ⟨hA, hf⟩⟩
   · simp only [hneg, if_false]
     by_cases hsame : t = (r.offset : Int)
     · rw [if_pos hsame]
       have : t.toNat = pos := by omega
-      exact ⟨rfl, hroot, hsize, hfo, by rw [this]; exact hoff, by rw [this]; exact hrem⟩
+      have hA : (r, t, Err.nil).2 = (t, Err.nil) ∧ Inv root r t.toNat :=
+        ⟨rfl, hroot, hsize, hfo, by rw [this]; exact hoff, by rw [this]; exact hrem⟩
+      exact ⟨Or.inl hA, fun hf => ⟨hA, hf⟩⟩
     · rw [if_neg hsame]
       by_cases hzero : t = 0
       · rw [if_pos hzero]
         subst hzero
-        refine ⟨rfl, hroot, hsize, by simp [framesOk], rfl, ?_⟩
-        simp [remDown, hroot]
+        have hA : (({ r with cur := none, offset := 0, w := { root := r.w.root, fails := r.w.fails } } : Reader), (0 : Int), Err.nil).2 = ((0 : Int), Err.nil) ∧
+            Inv root ({ r with cur := none, offset := 0, w := { root := r.w.root, fails := r.w.fails } } : Reader) (0 : Int).toNat := by
+          refine ⟨rfl, hroot, hsize, by simp [framesOk], rfl, ?_⟩
+          simp [remDown, hroot]
+        exact ⟨Or.inl hA, fun hf => ⟨hA, hf⟩⟩
       · rw [if_neg hzero]
-        -- the first `down` of Walker.Seek steps to the root
-        have hfc : ({ root := r.w.root } : Walker).fetchChild = some r.w.root := by simp [Walker.fetchChild]
-        have hsk := seek_spec (height r.w.root + 1) r.w.root { root := r.w.root } t.toNat (hroot ▸ hws)
+        -- the first `down` of Walker.Seek steps to the root (which is in memory)
+        have hsk := seek_spec (height r.w.root + 1) r.w.root { root := r.w.root, fails := r.w.fails } t.toNat (hroot ▸ hws)
           (Nat.lt_succ_self _) (by simp [framesOk])
-        simp only at hsk
-        obtain ⟨_, hr, hf, hc⟩ := hsk
-        have hw : wseek seekVisit (height r.w.root + 2) { root := r.w.root } (t.toNat, none) =
-            wseek seekVisit (height r.w.root + 1) (seekVisit (({ root := r.w.root } : Walker).extend r.w.root) (t.toNat, none)).1
-              (seekVisit (({ root := r.w.root } : Walker).extend r.w.root) (t.toNat, none)).2 := by
-          simp only [wseek, hfc]
-        refine ⟨rfl, ?_, hsize, ?_, rfl, ?_⟩
-        · simp only [hw]; rw [hr]; exact hroot
-        · simp only [hw]; exact hf
-        · simp only [hw]
-          rw [hc, hroot]
-          simp [remRest]
+        have hw : wseek seekVisit (height r.w.root + 2) { root := r.w.root, fails := r.w.fails } (t.toNat, none) =
+            wseek seekVisit (height r.w.root + 1)
+              (seekVisit (({ root := r.w.root, fails := r.w.fails } : Walker).extend r.w.root) (t.toNat, none)).1
+              (seekVisit (({ root := r.w.root, fails := r.w.fails } : Walker).extend r.w.root) (t.toNat, none)).2 := by
+          simp [wseek, Walker.fetchChild, Walker.fetchFails, Walker.popFail]
+        have hnf := wseek_nofail (height r.w.root + 2) { root := r.w.root, fails := r.w.fails } (t.toNat, none)
+        rw [hw] at hnf ⊢
+        dsimp only at hsk
+        generalize wseek seekVisit (height r.w.root + 1)
+              (seekVisit (({ root := r.w.root, fails := r.w.fails } : Walker).extend r.w.root) (t.toNat, none)).1
+              (seekVisit (({ root := r.w.root, fails := r.w.fails } : Walker).extend r.w.root) (t.toNat, none)).2 = W
+          at hsk hnf ⊢
+        cases hres : W.2.2 with
+        | done =>
+          rcases hsk with hx | ⟨_, hr, hf, hc⟩
+          · rw [hres] at hx; cases hx
+          · have hA : ((t, Err.nil) : Int × Err) = (t, Err.nil) ∧
+                Inv root ({ w := W.1, cur := W.2.1.2, size := r.size, offset := t.toNat } : Reader) t.toNat :=
+              ⟨rfl, by show W.1.root = root; rw [hr]; exact hroot, hsize, hf, rfl,
+                by show W.2.1.2.getD [] ++ remDown W.1 = _; rw [hc, hroot]; simp [remRest]⟩
+            exact ⟨Or.inl hA, fun hf0 => ⟨hA, (hnf hf0).2⟩⟩
+        | outOfFuel =>
+          rcases hsk with hx | ⟨hx, _⟩ <;> (rw [hres] at hx; cases hx)
+        | fetchErr =>
+          have hF : ((0, Err.err) : Int × Err) = (0, Err.err) ∧
+              Inv root ({ w := { root := r.w.root, fails := W.1.fails }, cur := none, size := r.size, offset := 0 } : Reader) 0 :=
+            ⟨rfl, hroot, hsize, by simp [framesOk], rfl, by simp [remDown, hroot]⟩
+          exact ⟨Or.inr hF, fun hf0 => absurd hres (hnf hf0).1⟩
 
-theorem seek_spec' (root : FNode) (hws : wellSized root = true) (r : Reader) (pos : Nat)
+theorem seek_step (root : FNode) (hws : wellSized root = true) (r : Reader) (pos : Nat)
     (h : Inv root r pos) (off : Int) (wh : Nat) :
-    (r.step (.seek off wh)).2 = (Spec.step ⟨content root, pos⟩ (.seek off wh)).2 ∧
-    Inv root (r.step (.seek off wh)).1 (Spec.step ⟨content root, pos⟩ (.seek off wh)).1.pos := by
+    (((r.step (.seek off wh)).2 = (Spec.step ⟨content root, pos⟩ (.seek off wh)).2 ∧
+        Inv root (r.step (.seek off wh)).1 (Spec.step ⟨content root, pos⟩ (.seek off wh)).1.pos) ∨
+     ((r.step (.seek off wh)).2 = ⟨[], 0, .err⟩ ∧ Inv root (r.step (.seek off wh)).1 0)) ∧
+    (r.w.fails = [] →
+      ((r.step (.seek off wh)).2 = (Spec.step ⟨content root, pos⟩ (.seek off wh)).2 ∧
+        Inv root (r.step (.seek off wh)).1 (Spec.step ⟨content root, pos⟩ (.seek off wh)).1.pos) ∧
+      (r.step (.seek off wh)).1.w.fails = []) := by
   have hoff := h.2.2.2.1
   have hsize : r.size = (content root).length := by rw [h.2.1, size_eq_of_wellSized root hws]
+  -- all three valid whence values reduce to seekStart with some target `t`
+  have key : ∀ t : Int,
+      ((({ bytes := [], off := (r.seekStart t).2.1, err := (r.seekStart t).2.2 } : Out) = (Spec.seekTo ⟨content root, pos⟩ t).2 ∧
+          Inv root (r.seekStart t).1 (Spec.seekTo ⟨content root, pos⟩ t).1.pos) ∨
+        (({ bytes := [], off := (r.seekStart t).2.1, err := (r.seekStart t).2.2 } : Out) = ⟨[], 0, .err⟩ ∧
+          Inv root (r.seekStart t).1 0)) ∧
+      (r.w.fails = [] →
+        (({ bytes := [], off := (r.seekStart t).2.1, err := (r.seekStart t).2.2 } : Out) = (Spec.seekTo ⟨content root, pos⟩ t).2 ∧
+          Inv root (r.seekStart t).1 (Spec.seekTo ⟨content root, pos⟩ t).1.pos) ∧ (r.seekStart t).1.w.fails = []) := by
+    intro t
+    obtain ⟨hAF, hNF⟩ := seekStart_spec root hws r pos h t
+    refine ⟨?_, fun hf => ?_⟩
+    · rcases hAF with ⟨h1, h2⟩ | ⟨h1, h2⟩
+      · exact Or.inl ⟨out_eq _ _ (seekTo_bytes _ _) h1, h2⟩
+      · exact Or.inr ⟨by rw [h1], h2⟩
+    · obtain ⟨⟨h1, h2⟩, h3⟩ := hNF hf
+      exact ⟨⟨out_eq _ _ (seekTo_bytes _ _) h1, h2⟩, h3⟩
   match wh with
-  | 0 =>
-    have := seekStart_spec root hws r pos h off
-    simp only [Reader.step, Reader.seek, Spec.step]
-    refine ⟨?_, this.2⟩
-    have h1 := congrArg Prod.fst this.1
-    have h2 := congrArg Prod.snd this.1
-    simp only at h1 h2
-    simp only [Spec.seekTo] at h1 h2 ⊢
-    split <;> simp_all
+  | 0 => simpa only [Reader.step, Reader.seek, Spec.step] using key off
   | 1 =>
     simp only [Reader.step, Reader.seek, Spec.step]
     by_cases h0 : off = 0
@@ -705,100 +863,166 @@ theorem seek_spec' (root : FNode) (hws : wellSized root = true) (r : Reader) (po
       simp only [if_true, Spec.seekTo, Int.add_zero]
       have : ¬ ((pos : Int) < 0) := by omega
       simp only [this, if_false, hoff, Int.toNat_natCast]
-      exact ⟨trivial, h⟩
+      exact ⟨Or.inl ⟨trivial, h⟩, fun hf => ⟨⟨trivial, h⟩, hf⟩⟩
     · simp only [h0, if_false]
-      have := seekStart_spec root hws r pos h (r.offset + off)
+      have := key (r.offset + off)
       rw [hoff] at this ⊢
-      refine ⟨?_, this.2⟩
-      have h1 := congrArg Prod.fst this.1
-      have h2 := congrArg Prod.snd this.1
-      simp only at h1 h2
-      simp only [Spec.seekTo] at h1 h2 ⊢
-      split <;> simp_all
+      exact this
   | 2 =>
     simp only [Reader.step, Reader.seek, Spec.step]
-    have := seekStart_spec root hws r pos h (r.size + off)
+    have := key (r.size + off)
     rw [hsize] at this ⊢
-    refine ⟨?_, this.2⟩
-    have h1 := congrArg Prod.fst this.1
-    have h2 := congrArg Prod.snd this.1
-    simp only at h1 h2
-    simp only [Spec.seekTo] at h1 h2 ⊢
-    split <;> simp_all
+    exact this
   | n + 3 =>
     simp only [Reader.step, Reader.seek, Spec.step]
-    exact ⟨trivial, h⟩
+    exact ⟨Or.inl ⟨trivial, h⟩, fun hf => ⟨⟨trivial, h⟩, hf⟩⟩
 
-theorem step_ok (root : FNode) (hws : wellSized root = true) (r : Reader) (pos : Nat) (h : Inv root r pos)
+/-- one operation: it agrees with the byte-slice reader, or (only if a fetch failed during the call) it is a
+`faulty` outcome; either way the representation invariant holds afterwards -/
+theorem step_okF (root : FNode) (hws : wellSized root = true) (r : Reader) (pos : Nat) (h : Inv root r pos)
     (op : Op) :
-    agrees op pos (content root).length (r.step op).2 (Spec.step ⟨content root, pos⟩ op).2 ∧
-    Inv root (r.step op).1 (Spec.step ⟨content root, pos⟩ op).1.pos ∧
-    (Spec.step ⟨content root, pos⟩ op).1.content = content root := by
+    ((agrees op pos (content root).length (r.step op).2 (Spec.step ⟨content root, pos⟩ op).2 ∧
+        Inv root (r.step op).1 (Spec.step ⟨content root, pos⟩ op).1.pos) ∨
+     (∃ s', faulty op ⟨content root, pos⟩ (r.step op).2 s' ∧ s'.content = content root ∧
+        Inv root (r.step op).1 s'.pos)) ∧
+    (r.w.fails = [] →
+      (agrees op pos (content root).length (r.step op).2 (Spec.step ⟨content root, pos⟩ op).2 ∧
+        Inv root (r.step op).1 (Spec.step ⟨content root, pos⟩ op).1.pos) ∧ (r.step op).1.w.fails = []) := by
   cases op with
   | seek off wh =>
-    have := seek_spec' root hws r pos h off wh
-    refine ⟨Or.inl this.1, this.2, ?_⟩
+    obtain ⟨hAF, hNF⟩ := seek_step root hws r pos h off wh
+    refine ⟨?_, fun hf => ?_⟩
+    · rcases hAF with ⟨h1, h2⟩ | ⟨h1, h2⟩
+      · exact Or.inl ⟨Or.inl h1, h2⟩
+      · exact Or.inr ⟨⟨content root, 0⟩, ⟨by rw [h1], by rw [h1]; exact ⟨rfl, rfl, rfl⟩⟩, rfl, h2⟩
+    · obtain ⟨⟨h1, h2⟩, h3⟩ := hNF hf
+      exact ⟨⟨Or.inl h1, h2⟩, h3⟩
+  | writeTo =>
+    obtain ⟨B, hB, hinv, hm, hnf⟩ := readGen_spec root r pos none h
+    simp only [Reader.step, Reader.writeTo, Spec.step]
+    have hgood : ∀ (hq : B = (content root).drop pos ∧ (r.readGen none).2.2 = .nil),
+        agrees .writeTo pos (content root).length
+          ⟨(r.readGen none).2.1, ((r.readGen none).2.1.length : Int), (r.readGen none).2.2⟩
+          ⟨(content root).drop pos, (((content root).drop pos).length : Int), .nil⟩ ∧
+        Inv root (r.readGen none).1 (pos + ((content root).drop pos).length) := by
+      intro hq
+      refine ⟨Or.inl ?_, ?_⟩
+      · rw [hB, hq.2, hq.1]
+      · rw [hq.1] at hinv; exact hinv
+    refine ⟨?_, fun hf => ?_⟩
+    · rcases hm with ⟨he, hpre, _⟩ | hq
+      · refine Or.inr ⟨⟨content root, pos + B.length⟩, ⟨by rw [he], ?_⟩, rfl, hinv⟩
+        simp only
+        rw [hB]
+        exact ⟨hpre, trivial, rfl⟩
+      · exact Or.inl (hgood hq)
+    · obtain ⟨hne, hfl⟩ := hnf hf
+      rcases hm with ⟨he, _⟩ | hq
+      · exact absurd he hne
+      · exact ⟨hgood hq, hfl⟩
+  | read k =>
+    obtain ⟨B, hB, hinv, hm, hnf⟩ := readGen_spec root r pos (some k) h
+    simp only [Reader.step, Reader.read, Spec.step]
+    have hgood : ∀ (hq : B = ((content root).drop pos).take k ∧
+          ((r.readGen (some k)).2.2 = .nil ∨ (r.readGen (some k)).2.2 = .eof) ∧
+          ((r.readGen (some k)).2.2 = .eof → B = (content root).drop pos ∧ (0 < k → B.length < k)) ∧
+          ((r.readGen (some k)).2.2 = .nil → 0 < k → B.length = k)),
+        agrees (.read k) pos (content root).length
+          ⟨(r.readGen (some k)).2.1, ((r.readGen (some k)).2.1.length : Int), (r.readGen (some k)).2.2⟩
+          ⟨((content root).drop pos).take k, ((((content root).drop pos).take k).length : Int),
+            if (((content root).drop pos).take k).length < k then .eof else .nil⟩ ∧
+        Inv root (r.readGen (some k)).1 (pos + (((content root).drop pos).take k).length) := by
+      intro hq
+      obtain ⟨hBe, herr, heof, hnil⟩ := hq
+      refine ⟨?_, ?_⟩
+      · rw [hB]
+        by_cases hk : 0 < k
+        · left
+          rcases herr with he | he
+          · have := hnil he hk
+            rw [he, ← hBe]
+            simp [this]
+          · have := (heof he).2 hk
+            rw [he, ← hBe]
+            simp [this]
+        · have hk0 : k = 0 := by omega
+          subst hk0
+          rcases herr with he | he
+          · left; rw [he, ← hBe]; simp
+          · right
+            refine ⟨.eof, rfl, ?_, Or.inr ⟨rfl, ?_⟩⟩
+            · rw [he, ← hBe]
+            · have h1 := (heof he).1
+              rw [hBe] at h1
+              simp only [List.take_zero] at h1
+              have := congrArg List.length h1
+              simp only [List.length_nil, List.length_drop] at this
+              omega
+      · rw [← hBe]; exact hinv
+    refine ⟨?_, fun hf => ?_⟩
+    · rcases hm with ⟨he, hpre, hle⟩ | hq
+      · refine Or.inr ⟨⟨content root, pos + B.length⟩, ⟨by rw [he], ?_⟩, rfl, hinv⟩
+        simp only
+        rw [hB]
+        exact ⟨hpre, hle k rfl, trivial, rfl⟩
+      · exact Or.inl (hgood hq)
+    · obtain ⟨hne, hfl⟩ := hnf hf
+      rcases hm with ⟨he, _⟩ | hq
+      · exact absurd he hne
+      · exact ⟨hgood hq, hfl⟩
+
+theorem spec_content (s : Spec) (op : Op) : (s.step op).1.content = s.content := by
+  cases op with
+  | read k => rfl
+  | writeTo => rfl
+  | seek off wh =>
     match wh with
     | 0 => simp only [Spec.step, Spec.seekTo]; split <;> rfl
     | 1 => simp only [Spec.step, Spec.seekTo]; split <;> rfl
     | 2 => simp only [Spec.step, Spec.seekTo]; split <;> rfl
     | n + 3 => rfl
-  | writeTo =>
-    obtain ⟨B, hB, hinv, hm⟩ := readGen_spec root r pos none h
-    simp only at hm
-    simp only [Reader.step, Reader.writeTo, Spec.step]
-    refine ⟨Or.inl ?_, ?_, trivial⟩
-    · rw [hB, hm.2, hm.1]
-    · rw [hm.1] at hinv; exact hinv
-  | read k =>
-    obtain ⟨B, hB, hinv, hm⟩ := readGen_spec root r pos (some k) h
-    simp only at hm
-    obtain ⟨hBe, herr, heof, hnil⟩ := hm
-    simp only [Reader.step, Reader.read, Spec.step]
-    refine ⟨?_, ?_, trivial⟩
-    · rw [hB]
-      by_cases hk : 0 < k
-      · left
-        rcases herr with he | he
-        · have := hnil he hk
-          rw [he, ← hBe]
-          simp [this]
-        · have := (heof he).2 hk
-          rw [he, ← hBe]
-          simp [this]
-      · have hk0 : k = 0 := by omega
-        subst hk0
-        rcases herr with he | he
-        · left; rw [he, ← hBe]; simp
-        · right
-          refine ⟨.eof, rfl, ?_, Or.inr ⟨rfl, ?_⟩⟩
-          · rw [he, ← hBe]
-          · have h1 := (heof he).1
-            rw [hBe] at h1
-            simp only [List.take_zero] at h1
-            have := congrArg List.length h1
-            simp only [List.length_nil, List.length_drop] at this
-            omega
-    · rw [← hBe]; exact hinv
 
-/-- every run of the reader agrees with the byte-slice reader -/
-theorem run_agrees (root : FNode) (hws : wellSized root = true) : ∀ (ops : List Op) (r : Reader) (pos : Nat),
-    Inv root r pos → Spec.runAgrees ⟨content root, pos⟩ ops (r.run ops) := by
+theorem spec_eta (s : Spec) (op : Op) : (s.step op).1 = ⟨s.content, (s.step op).1.pos⟩ := by
+  have := spec_content s op
+  cases hh : (s.step op).1 with
+  | mk c p => rw [hh] at this; simp only at this; rw [this]
+
+/-- every run of the reader, with ANY pattern of fetch failures, agrees with the byte-slice reader up to `faulty`
+outcomes -/
+theorem run_agreesF (root : FNode) (hws : wellSized root = true) : ∀ (ops : List Op) (r : Reader) (pos : Nat),
+    Inv root r pos → Spec.runAgreesF ⟨content root, pos⟩ ops (r.run ops) := by
   intro ops
   induction ops with
-  | nil => intro r pos _; simp [Reader.run, Spec.runAgrees]
+  | nil => intro r pos _; simp [Reader.run, Spec.runAgreesF]
   | cons op ops ih =>
     intro r pos h
-    obtain ⟨ha, hi, hc⟩ := step_ok root hws r pos h op
+    obtain ⟨hAF, _⟩ := step_okF root hws r pos h op
+    simp only [Reader.run, Spec.runAgreesF]
+    rcases hAF with ⟨ha, hi⟩ | ⟨s', hf, hc, hi⟩
+    · left
+      refine ⟨ha, ?_⟩
+      have := ih (r.step op).1 (Spec.step ⟨content root, pos⟩ op).1.pos hi
+      rw [spec_eta]; exact this
+    · right
+      refine ⟨s', hf, ?_⟩
+      have := ih (r.step op).1 s'.pos hi
+      have hs : s' = ⟨content root, s'.pos⟩ := by cases s'; simp only at hc; rw [hc]
+      rw [hs]; exact this
+
+/-- every run of the reader without fetch failures agrees with the byte-slice reader -/
+theorem run_agrees (root : FNode) (hws : wellSized root = true) : ∀ (ops : List Op) (r : Reader) (pos : Nat),
+    Inv root r pos → r.w.fails = [] → Spec.runAgrees ⟨content root, pos⟩ ops (r.run ops) := by
+  intro ops
+  induction ops with
+  | nil => intro r pos _ _; simp [Reader.run, Spec.runAgrees]
+  | cons op ops ih =>
+    intro r pos h hf
+    obtain ⟨_, hNF⟩ := step_okF root hws r pos h op
+    obtain ⟨⟨ha, hi⟩, hfl⟩ := hNF hf
     simp only [Reader.run, Spec.runAgrees]
     refine ⟨ha, ?_⟩
-    have := ih (r.step op).1 (Spec.step ⟨content root, pos⟩ op).1.pos hi
-    have hs : (Spec.step ⟨content root, pos⟩ op).1 = ⟨content root, (Spec.step ⟨content root, pos⟩ op).1.pos⟩ := by
-      cases hh : (Spec.step ⟨content root, pos⟩ op).1 with
-      | mk c p => rw [hh] at hc; simp only at hc; rw [hc]
-    rw [hs]
-    exact this
-
+    have := ih (r.step op).1 (Spec.step ⟨content root, pos⟩ op).1.pos hi hfl
+    rw [spec_eta]; exact this
 
 /-- without zero-length reads, agreement is equality of the output lists -/
 theorem runAgrees_eq : ∀ (ops : List Op) (s : Spec) (outs : List Out), (∀ op ∈ ops, op.isZeroRead = false) →
